@@ -124,4 +124,17 @@ def dirAndAncestors (d : Bytes) : List Bytes :=
 def dirsBeforeCommand (outs : List Bytes) : List Bytes :=
   (createParentDirs outs []).flatMap dirAndAncestors
 
+/-- A chain of steps run one after the other in one invocation (each waits for the previous one):
+    before each command its output directories are created (again, if a previous command removed
+    them); a command may end by removing a directory tree (`rm -rf d`).  Returns, per step, the
+    directories that exist when its command starts (in a tree that had none). -/
+def chainDirs : List (List Bytes × Option Bytes) → List Bytes → List (List Bytes)
+  | [], _ => []
+  | (outs, rm) :: rest, existing =>
+    let atStart := (existing ++ dirsBeforeCommand outs).eraseDups
+    let after := match rm with
+      | none => atStart
+      | some d => atStart.filter (fun x => !(x == d || (d ++ [47]).isPrefixOf x))
+    atStart :: chainDirs rest after
+
 end N2V.Task
